@@ -9,7 +9,8 @@ def run(ctx):
     codec.world(ctx)
     # windows of payload lengths around every digit-count boundary of the hlen expression plus interior values; inside a window every length is
     # one concrete-layout run of the real encoder (case split in the harness), the byte sum is symbolic
-    wins = [(5, 40), (85, 115), (985, 1015), (9985, 10015), (500, 515), (5000, 5015)] + ([(41, 84), (99985, 100015), (999985, 1000015), (50000, 50015)] if ctx.tier == 'thorough' else [])
+    QUICK = [(5, 40), (95, 105), (995, 1005), (9995, 10004), (500, 507), (5000, 5007)]
+    wins = QUICK + ([(41, 94), (85, 115), (985, 1015), (9985, 10015), (99985, 100015), (999985, 1000015), (50000, 50015)] if ctx.tier == 'thorough' else [])
     for lo, hi in wins:
         ctx.add(Harness('C02_frame_%d_%d' % (lo, hi), VERIF + '/harness/C02_frame.c', defines=defs + codec.WORLD_DEFS + ['LO=%d' % lo, 'HI=%d' % hi, 'VF_MAXCOPY=%d' % codec.FLD], unwind=14,
                         unwindset=codec.us_decode(6), flags=['-I', VERIF + '/shims', '--max-field-sensitivity-array-size', str(hi + 64)], object_bits=13, timeout=900, functions=FUN,
@@ -17,7 +18,7 @@ def run(ctx):
                                'Message::calc_chksum := a sum chosen by the harness; start pointer and length checked (kernel == byte sum: C07)',
                                'Message::fmt_chksum := the three zero-padded decimal digits of its argument (the real function is checked for every value 0..255 by C02_fmtsum)', 'std::string, operator new: models/cxx.c; logging off'],
                         bounds='every payload size in [%d, %d] (one concrete-layout run per size and split), every checksum 0..255; output buffer with canaries before the preamble and behind the NUL; BeginString FIX.4.2' % (lo, hi),
-                        desc='preamble width, BodyLength digits, CheckSum field, return value', backend='default', tier='quick' if hi <= 10015 else 'thorough'))
+                        desc='preamble width, BodyLength digits, CheckSum field, return value', backend='default', tier='quick' if (lo, hi) in QUICK else 'thorough'))
     ctx.add(Harness('C02_fmtsum', VERIF + '/harness/C02_fmtsum.c', defines=defs + codec.WORLD_DEFS + ['VF_MAXCOPY=%d' % codec.FLD], unwind=14, unwindset=codec.us_decode(6, extra=['main.0:260']),
                     flags=['-I', VERIF + '/shims'], object_bits=13, timeout=600, functions=['FIX8::Message::fmt_chksum', 'FIX8::itoa<unsigned>'], stubs=['std::string: models/cxx.c'],
                     bounds='every value 0..255 (one concrete run each)', desc='three zero-padded decimal digits'))
